@@ -37,7 +37,7 @@ CHECKS = {
          "Every sequence of length <=2 (quick) / <=3 (thorough) over a 39-operation alphabet x shard counts {1,2,3}, plus random sequences up to 300 operations over 1..5 shards, is applied to the real store and to a sequential model; every return value (incl. merge failures: missing destination/source, same track, failing merge callback) and the full per-shard contents are compared after every step.",
          "The model reuses the harness-owned callbacks (attribute update/merge, optimise) - they are inputs, not code under test; track/store semantics are modelled independently. Diagnostic 'seen by last optimise' fields are masked (hash-order dependent for unordered class lists).", "3/C09"),
  "C10": ("exploration", "property-based testing under forced worker schedules: generated stores/queries x command-granularity interleavings (hook gates) vs sequential definition",
-         "Generated store contents and candidate batches (foreign and owned), both only_baked settings, all()/iterator, 1..4 shards; a plan totally orders all Distances commands (FIFO per shard) and the caller's own step; all interleavings enumerated for scenarios with <= 6 commands, random plans and delays beyond. The multiset of results and the number of error items must equal the sequential definition and the store must be unchanged.",
+         "Generated store contents and candidate batches (foreign and owned), both only_baked settings, all()/iterator, 1..4 shards; a plan totally orders all Distances commands (FIFO per shard) and the caller's own step; all interleavings enumerated for scenarios with <= 6 commands, random plans and delays beyond. The multiset of results and the number of error items must equal the sequential definition and the store must be unchanged; the query is asked a second time after stored tracks changed status through caller-side operations; a second metric type with the default post-processing is compared per pair with Track::distances.",
          "Schedules are forced at hook granularity (command begin/end, the caller's step inside the owned query), not at instruction level; gate waits are bounded and an unachieved plan only costs coverage (counted).", "3/C10"),
  "C11": ("fault_enumeration", "property-based testing + exhaustive fault injection: every callback position of every generated case fails once; pre/post state comparison and sequential track model; thorough tier adds coverage-guided fuzzing (libFuzzer bytes drive the same proptest strategies, same oracle)",
          "For each generated (tracks, operation) case a fault-free run numbers the user-callback invocations (attribute update, attribute merge, optimise per class); then every position is replayed failing, on add_observation, Track::merge, store.add, merge_external and merge_owned. Failure => state equals the pre-state in attributes, observations of every class, metric state and merge history, zero notifications, both tracks still stored; success => exactly one notification and the state of the sequential model (merge history = previous ++ source once).",
